@@ -49,7 +49,7 @@ Qed.
 Lemma bytes_cmp_antisym : forall a b, bytes_cmp a b = - bytes_cmp b a.
 Proof.
   induction a; destruct b; cbn [bytes_cmp]; try reflexivity.
-  rewrite (N.eqb_sym n a). dif; try lia. apply IHa.
+  rewrite (N.eqb_sym n a). dif; try lia; try apply IHa.
 Qed.
 Lemma bytes_cmp_FT : forall a b c, FT bytes_cmp a b c.
 Proof.
@@ -140,6 +140,14 @@ Proof.
   destruct Ha as [-> _]. destruct Hb as [-> _]. reflexivity.
 Qed.
 
+Ltac dblkey :=
+  repeat match goal with
+  | |- context[dbl_eq ?a ?b] => rewrite (dbl_eq_key a b) by assumption
+  | |- context[dbl_lt ?a ?b] => rewrite (dbl_lt_key a b) by assumption
+  | H : context[dbl_eq ?a ?b] |- _ => rewrite (dbl_eq_key a b) in H by assumption
+  | H : context[dbl_lt ?a ?b] |- _ => rewrite (dbl_lt_key a b) in H by assumption
+  end.
+
 (* ---------- num_eqb ---------- *)
 Ltac num_wf_split :=
   repeat match goal with
@@ -151,8 +159,8 @@ Lemma num_eqb_refl : forall a, num_wf a = true -> num_eqb a a = true.
 Proof.
   destruct a; intros W; cbn [num_eqb]; num_wf_split;
     rewrite ?Qeq_pair_refl, ?Z.eqb_refl; try reflexivity.
-  - rewrite dbl_eq_key by assumption. lia.
-  - rewrite !dbl_eq_key by assumption. lia.
+  - dblkey. lia.
+  - dblkey. lia.
 Qed.
 
 Lemma dbl_eq_sym : forall a b, dbl_eq a b = dbl_eq b a.
@@ -167,6 +175,12 @@ Proof.
             ?(dbl_eq_sym bits), ?(dbl_eq_sym re), ?(dbl_eq_sym im); try reflexivity; apply Z.eqb_sym.
 Qed.
 
+Ltac qcanon :=
+  repeat match goal with
+  | H : Qeq_pair ?a ?b ?c ?d = true |- _ =>
+      apply Qeq_pair_canon in H; [destruct H; subst c d | assumption | assumption]
+  end.
+
 (* on well-formed numbers eq is structural equality except for signed zeros of doubles *)
 Lemma num_eqb_trans : forall a b c, num_wf a = true -> num_wf b = true -> num_wf c = true ->
   num_eqb a b = true -> num_eqb b c = true -> num_eqb a c = true.
@@ -174,13 +188,10 @@ Proof.
   destruct a, b; cbn [num_eqb]; try discriminate; destruct c; cbn [num_eqb]; try discriminate;
     intros Wa Wb Wc E1 E2; num_wf_split.
   - lia.
-  - apply Qeq_pair_canon in E1; try assumption. destruct E1; subst. exact E2.
-  - apply andb_prop in E1. destruct E1 as [E1 E1']. apply andb_prop in E2. destruct E2 as [E2 E2'].
-    apply Qeq_pair_canon in E1; try assumption. apply Qeq_pair_canon in E1'; try assumption.
-    destruct E1, E1'; subst. rewrite E2, E2'. reflexivity.
-  - rewrite dbl_eq_key in * by assumption. lia.
-  - apply andb_prop in E1. destruct E1 as [E1 E1']. apply andb_prop in E2. destruct E2 as [E2 E2'].
-    rewrite dbl_eq_key in * by assumption. lia.
+  - qcanon. apply Qeq_pair_refl.
+  - qcanon. rewrite !Qeq_pair_refl. reflexivity.
+  - dblkey. lia.
+  - dblkey. lia.
   - lia.
   - reflexivity.
 Qed.
@@ -190,13 +201,10 @@ Lemma num_eqb_hash : forall a b, num_wf a = true -> num_wf b = true ->
 Proof.
   destruct a, b; cbn [num_eqb]; try discriminate; intros Wa Wb E; num_wf_split; cbn [hash_num].
   - apply Z.eqb_eq in E. subst. reflexivity.
-  - apply Qeq_pair_canon in E; try assumption. destruct E; subst. reflexivity.
-  - apply andb_prop in E. destruct E as [E E'].
-    apply Qeq_pair_canon in E; try assumption. apply Qeq_pair_canon in E'; try assumption.
-    destruct E, E'; subst. reflexivity.
-  - rewrite (dbl_eq_hash_bits _ _ Wa Wb E). reflexivity.
-  - apply andb_prop in E. destruct E as [E E'].
-    rewrite (dbl_eq_hash_bits re re0), (dbl_eq_hash_bits im im0) by assumption. reflexivity.
+  - qcanon. reflexivity.
+  - qcanon. reflexivity.
+  - rewrite (dbl_eq_hash_bits bits bits0) by assumption. reflexivity.
+  - rewrite (dbl_eq_hash_bits re re0), (dbl_eq_hash_bits im im0) by assumption. reflexivity.
   - apply Z.eqb_eq in E. subst. reflexivity.
   - reflexivity.
 Qed.
@@ -227,11 +235,8 @@ Proof.
   destruct a, b; try contradiction; cbn [num_cmp_same num_eqb]; num_wf_split.
   - rewrite Zcmp_eq. lia.
   - rewrite Qeq_pair_cmp. tauto.
-  - rewrite !Qeq_pair_cmp.
-    pose proof (Qcmp_pair_range rn rd rn0 rd0). pose proof (Qcmp_pair_range imn imd imn0 imd0).
-    unfold in_range in *.
-    destruct (Qeq_pair rn rd rn0 rd0) eqn:E1; destruct (Qeq_pair imn imd imn0 imd0) eqn:E2;
-      rewrite <- ?E1, <- ?E2, ?Qeq_pair_cmp, ?E1, ?E2; cbn [andb]; dif; try lia; split; try lia; try discriminate.
+  - destruct (Qeq_pair rn rd rn0 rd0); destruct (Qeq_pair imn imd imn0 imd0); cbn [andb];
+      dif; split; intros; try reflexivity; try lia; try discriminate.
   - dif; split; intros; try reflexivity; try lia; try discriminate.
   - destruct (dbl_eq re re0), (dbl_eq im im0); cbn [andb]; dif; split; intros; try reflexivity; try lia; try discriminate.
   - rewrite Zcmp_eq. lia.
@@ -262,8 +267,8 @@ Proof.
     unfold in_range in *.
     destruct (Qeq_pair rn rd rn0 rd0); destruct (Qeq_pair imn imd imn0 imd0); dif; try lia;
       intuition (try lia; try discriminate).
-  - rewrite !dbl_eq_key, !dbl_lt_key by assumption. dif; lia.
-  - rewrite !dbl_eq_key, !dbl_lt_key by assumption.
+  - dblkey. dif; lia.
+  - dblkey.
     destruct (dbl_key re =? dbl_key re0) eqn:?, (dbl_key im =? dbl_key im0) eqn:?,
              (dbl_key re0 =? dbl_key re) eqn:?, (dbl_key im0 =? dbl_key im) eqn:?; cbn [andb]; dif; lia.
   - apply Zcmp_antisym.
@@ -322,9 +327,9 @@ Proof.
       pose proof (Qcmp_pair_antisym rn rd rn0 rd0).
       repeat split; intros A B; dif; try lia. }
     repeat split; intros A B; dif; try lia; intuition lia.
-  - unfold FT. cbn [num_cmp_same]. rewrite !dbl_eq_key, !dbl_lt_key by assumption.
+  - unfold FT. cbn [num_cmp_same]. dblkey.
     repeat split; intros A B; dif; lia.
-  - unfold FT. cbn [num_cmp_same]. rewrite !dbl_eq_key, !dbl_lt_key by assumption.
+  - unfold FT. cbn [num_cmp_same]. dblkey.
     destruct (dbl_key re =? dbl_key re0) eqn:?, (dbl_key im =? dbl_key im0) eqn:?,
              (dbl_key re0 =? dbl_key re1) eqn:?, (dbl_key im0 =? dbl_key im1) eqn:?,
              (dbl_key re =? dbl_key re1) eqn:?, (dbl_key im =? dbl_key im1) eqn:?; cbn [andb];
